@@ -156,6 +156,14 @@ var ruleZipMarkers = &core.Rule{ID: "R19.1", Min: 8,
 		if contains(scan(w)) {
 			hasCT = true
 		}
+		// or in a predicate helper of the walker (the list moved along with the test)
+		for _, ci := range core.Calls(w) {
+			if h := ci.Common().StaticCallee(); h != nil && core.InMod(h) && h.Blocks != nil && h != w {
+				if rb, ok := h.Signature.Results().At(0).Type().Underlying().(*types.Basic); ok && h.Signature.Results().Len() == 1 && rb.Kind() == types.Bool && contains(scan(h)) {
+					hasCT = true
+				}
+			}
+		}
 		if !hasCT {
 			// package-level table: stored in init, loaded by the walker or a helper it calls
 			loaded := map[*ssa.Global]bool{}
@@ -401,6 +409,31 @@ var ruleZipWalk = &core.Rule{ID: "R19.5", Min: 5,
 				}
 				if !core.IsInteger(ph.Type()) {
 					continue
+				}
+				// rotated form (for range K): the counter starts at 0, the latch computes counter+1 and continues while that is < K
+				for e, p := range b.Preds {
+					if !b.Dominates(p) {
+						continue
+					}
+					add, ok := ph.Edges[e].(*ssa.BinOp)
+					if !ok || add.Op != token.ADD || add.X != ssa.Value(ph) || !core.IsConstInt(add.Y, 1) {
+						continue
+					}
+					if liff := core.IfOf(p); liff != nil && p.Succs[0] == b {
+						if cmp, ok := liff.Cond.(*ssa.BinOp); ok && cmp.Op == token.LSS && cmp.X == ssa.Value(add) {
+							if k, ok := core.ConstInt(cmp.Y); ok && k >= 1 {
+								okInit := true
+								for e2, p2 := range b.Preds {
+									if !b.Dominates(p2) && !core.IsConstInt(ph.Edges[e2], 0) {
+										okInit = false
+									}
+								}
+								if okInit {
+									trips = k
+								}
+							}
+						}
+					}
 				}
 				iff := core.IfOf(b)
 				if iff == nil {
